@@ -152,7 +152,9 @@ Lemma seval_ieval_both :
   (forall a, (forall fr sf g, E vs fr sf -> cov_args clos vs a = true ->
               erel vs (ieval_args cfi funs clos fn a fr g) (seval_args cfs funs clos vs fn a sf g)) /\
              (forall v fr sf g, E vs fr sf -> cov_args clos vs a = true ->
-              erel vs (ieval_conds cfi funs clos fn v a fr g) (seval_conds cfs funs clos vs fn v a sf g))) /\
+              erel vs (ieval_conds cfi funs clos fn v a fr g) (seval_conds cfs funs clos vs fn v a sf g)) /\
+             (forall ok xs seen fr sf g, E vs fr sf -> cov_args clos vs a = true ->
+              erel vs (ieval_nargs cfi funs clos fn ok xs seen a fr g) (seval_nargs cfs funs clos vs fn ok xs seen a sf g))) /\
   (forall m, forall v fr sf g, E vs fr sf -> cov_arms clos vs m = true ->
              erel vs (ieval_arms cfi funs clos fn v m fr g) (seval_arms cfs funs clos vs fn v m sf g)).
 Proof.
@@ -239,17 +241,28 @@ Proof.
     destruct (obj_id v); simpl; auto.
   - (* EMatch *) intros s0 IHs m IHm fr sf g HE C. cbn [cov_expr] in C. andb_split. rewrite ieval_match, seval_match.
     pose proof (IHs fr sf g HE H) as R. rel_step R va f1 s1 g1. destruct va; [|simpl; auto]. apply IHm; auto.
-  - (* ANil *) split; intros; simpl; auto.
-  - (* ACons *) intros e IHe r [IHr IHc]. split.
+  - (* ECallN *) intros f a [IHa _] xs b (_ & _ & IHn) fr sf g HE C. cbn [cov_expr] in C. andb_split.
+    rewrite ieval_calln, seval_calln. destruct (find_fun funs f) as [d|]; [|simpl; auto].
+    pose proof (IHa fr sf g HE H) as R. rel_step R va f1 s1 g1. destruct va as [l|]; [|simpl; auto].
+    pose proof (IHn (named_ok_impl (fparams d) l) xs [] _ _ g1 R H0) as R2. rel_step R2 vb f2 s2 g2.
+    destruct vb as [nvs|]; [|simpl; auto].
+    destruct (arrange_impl (fparams d) l nvs) as [full|]; [|simpl; auto].
+    rewrite Hcf. destruct (cfi (CFun f) full g2) as [[o g']|]; simpl; auto.
+  - (* ANil *) split; [|split]; intros; try rewrite ieval_nargs_nil, seval_nargs_nil; simpl; auto.
+  - (* ACons *) intros e IHe r (IHr & IHc & IHn). split; [|split].
     + intros fr sf g HE C. cbn [cov_args] in C. andb_split. rewrite ieval_args_cons, seval_args_cons.
       pose proof (IHe fr sf g HE H) as R. rel_step R va f1 s1 g1. destruct va; [|simpl; auto].
       pose proof (IHr _ _ g1 R H0) as R2. rel_step R2 vb f2 s2 g2. destruct vb; simpl; auto.
     + intros v fr sf g HE C. cbn [cov_args] in C. andb_split. rewrite ieval_conds_cons, seval_conds_cons.
       pose proof (IHe fr sf g HE H) as R. rel_step R va f1 s1 g1. destruct va as [w|]; [|simpl; auto].
       destruct (same_value v w); [simpl; auto|]. apply IHc; auto.
+    + intros ok xs seen fr sf g HE C. cbn [cov_args] in C. andb_split. rewrite ieval_nargs_cons, seval_nargs_cons.
+      destruct xs as [|x xr]; [simpl; auto|].
+      pose proof (IHe fr sf g HE H) as R. rel_step R va f1 s1 g1. destruct va as [w|]; [|simpl; auto].
+      destruct (ok x seen); [|simpl; auto]. apply IHn; auto.
   - (* MNil *) intros v fr sf g HE C. simpl. auto.
   - (* MDefault *) intros e IHe v fr sf g HE C. cbn [cov_arms] in C. rewrite ieval_arms_default, seval_arms_default. apply IHe; auto.
-  - (* MCons *) intros c [_ IHc] e IHe r IHr v fr sf g HE C. cbn [cov_arms] in C. andb_split.
+  - (* MCons *) intros c (_ & IHc & _) e IHe r IHr v fr sf g HE C. cbn [cov_arms] in C. andb_split.
     rewrite ieval_arms_cons, seval_arms_cons. pose proof (IHc v fr sf g HE H) as R. rel_step R va f1 s1 g1.
     destruct va as [[|]|].
     + apply IHe; auto.
